@@ -339,15 +339,16 @@ Qed.
 Definition Rb (sb : sbatch) (mb : mbatch) : Prop :=
   norange (sb_ws sb) /\ mb_writes mb = map conv (sb_ws sb) /\ wm_ok mb /\ sb_size sb = mb_size mb.
 
-Definition cur_rel (n : nat) (c : cursor) (z : Z) : Prop :=
+Definition cur_rel (n : nat) (c : cursor) (z : Z) (pos : bool) : Prop :=
   match c with
-  | Fresh | Before => z = (-1)%Z
-  | At i => (i < n)%nat /\ z = Z.of_nat i
-  | After => z = Z.of_nat n
+  | Fresh => z = (-1)%Z /\ pos = false
+  | Before => z = (-1)%Z /\ pos = true
+  | At i => (i < n)%nat /\ z = Z.of_nat i /\ pos = true
+  | After => z = Z.of_nat n /\ pos = true
   end.
 
 Definition Ri (si : siter) (mi : miter) : Prop :=
-  si_kvs si = mi_kvs mi /\ cur_rel (length (si_kvs si)) (si_cur si) (mi_cur mi).
+  si_kvs si = mi_kvs mi /\ cur_rel (length (si_kvs si)) (si_cur si) (mi_cur mi) (mi_pos mi).
 
 Definition orel {A B} (R : A -> B -> Prop) (x : option A) (y : option B) : Prop :=
   match x, y with
@@ -413,19 +414,21 @@ Proof.
   - apply IH in H. lia.
 Qed.
 
-Lemma mem_at kvs z i x : z = Z.of_nat i -> nth_error kvs i = Some x ->
-  m_valid {| mi_kvs := kvs; mi_cur := z |} = true /\ mem_cur {| mi_kvs := kvs; mi_cur := z |} = Some x.
+Lemma mem_at kvs z pos i x : z = Z.of_nat i -> nth_error kvs i = Some x ->
+  m_valid {| mi_kvs := kvs; mi_cur := z; mi_pos := pos |} = true /\
+  mem_cur {| mi_kvs := kvs; mi_cur := z; mi_pos := pos |} = Some x.
 Proof.
   intros -> Hx. assert (Hi : (i < length kvs)%nat) by (apply nth_error_Some; congruence).
-  assert (Hv : m_valid {| mi_kvs := kvs; mi_cur := Z.of_nat i |} = true).
+  assert (Hv : m_valid {| mi_kvs := kvs; mi_cur := Z.of_nat i; mi_pos := pos |} = true).
   { unfold m_valid. cbn [mi_cur mi_kvs]. apply andb_true_iff. split; [apply Z.leb_le|apply Z.ltb_lt]; lia. }
   split; [exact Hv|]. unfold mem_cur. rewrite Hv. cbn [mi_cur mi_kvs]. rewrite Nat2Z.id. exact Hx.
 Qed.
 
-Lemma mem_out kvs z : (z < 0 \/ Z.of_nat (length kvs) <= z)%Z ->
-  m_valid {| mi_kvs := kvs; mi_cur := z |} = false /\ mem_cur {| mi_kvs := kvs; mi_cur := z |} = None.
+Lemma mem_out kvs z pos : (z < 0 \/ Z.of_nat (length kvs) <= z)%Z ->
+  m_valid {| mi_kvs := kvs; mi_cur := z; mi_pos := pos |} = false /\
+  mem_cur {| mi_kvs := kvs; mi_cur := z; mi_pos := pos |} = None.
 Proof.
-  intros H. assert (Hv : m_valid {| mi_kvs := kvs; mi_cur := z |} = false).
+  intros H. assert (Hv : m_valid {| mi_kvs := kvs; mi_cur := z; mi_pos := pos |} = false).
   { unfold m_valid. cbn [mi_cur mi_kvs]. apply andb_false_iff.
     destruct H; [left; apply Z.leb_gt|right; apply Z.ltb_ge]; lia. }
   split; [exact Hv|]. unfold mem_cur. rewrite Hv. reflexivity.
@@ -436,73 +439,80 @@ Proof. intros H. destruct (nth_error l i) eqn:E; eauto. apply nth_error_None in 
 
 Lemma first_sim kvs :
   let si' := {| si_kvs := kvs; si_cur := first_cur (length kvs) |} in
-  let mi' := {| mi_kvs := kvs; mi_cur := 0 |} in
+  let mi' := {| mi_kvs := kvs; mi_cur := 0; mi_pos := true |} in
   Ri si' mi' /\ m_valid mi' = (match spec_cur si' with Some _ => true | None => false end) /\
   mem_cur mi' = spec_cur si'.
 Proof.
-  cbv zeta. unfold Ri, spec_cur. cbn [si_kvs si_cur mi_kvs mi_cur].
+  cbv zeta. unfold Ri, spec_cur. cbn [si_kvs si_cur mi_kvs mi_cur mi_pos].
   destruct kvs as [|x kvs].
-  - cbn [length first_cur cur_rel]. destruct (mem_out [] 0%Z) as [-> ->]; [cbn; lia|]. auto.
-  - cbn [length first_cur cur_rel]. destruct (mem_at (x :: kvs) 0%Z 0%nat x) as [-> ->]; auto.
+  - cbn [length first_cur cur_rel]. destruct (mem_out [] 0%Z true) as [-> ->]; [cbn; lia|]. auto.
+  - cbn [length first_cur cur_rel]. destruct (mem_at (x :: kvs) 0%Z true 0%nat x) as [-> ->]; auto.
     cbn. repeat split; auto. lia.
 Qed.
 
+(* every positioning sequence: no exclusion any more *)
 Lemma move_sim si mi m :
   Ri si mi ->
-  (match m, si_cur si with MPrev, Before | MNext, After => False | _, _ => True end) ->
   let si' := spec_move si m in
   Ri si' (fst (mem_move mi m)) /\
   snd (mem_move mi m) = (match spec_cur si' with Some _ => true | None => false end) /\
   mem_cur (fst (mem_move mi m)) = spec_cur si'.
 Proof.
-  intros [Hk Hc] Hstrict. destruct si as [kvs c], mi as [kvs' z].
-  cbn [si_kvs si_cur mi_kvs mi_cur] in *. subst kvs'. cbv zeta.
+  intros [Hk Hc]. destruct si as [kvs c], mi as [kvs' z pos].
+  cbn [si_kvs si_cur mi_kvs mi_cur mi_pos] in *. subst kvs'. cbv zeta.
   pose proof (first_sim kvs) as Hfirst. cbv zeta in Hfirst.
-  unfold spec_move, mem_move, m_set. cbn [si_kvs si_cur mi_kvs mi_cur].
+  unfold spec_move, mem_move, m_set, m_first. cbn [si_kvs si_cur mi_kvs mi_cur mi_pos].
   set (n := length kvs) in *.
   destruct m as [| | |k].
   - (* First *) cbn [fst snd]. exact Hfirst.
   - (* Next *)
-    cbn [fst snd]. destruct c as [| |i|]; cbn [cur_rel] in Hc.
-    + subst z. exact Hfirst.
-    + subst z. exact Hfirst.
-    + destruct Hc as [Hi ->]. unfold Ri, spec_cur. cbn [si_kvs si_cur mi_kvs mi_cur]. fold n.
+    destruct c as [| |i|]; cbn [cur_rel] in Hc.
+    + destruct Hc as [-> ->]. cbn [negb fst snd]. exact Hfirst.
+    + destruct Hc as [-> ->]. cbn [negb]. fold n.
+      destruct (Z.ltb_spec (-1) (Z.of_nat n)) as [_|Hge]; [|lia]. cbn [fst snd].
+      replace (-1 + 1)%Z with 0%Z by lia. exact Hfirst.
+    + destruct Hc as (Hi & -> & ->). cbn [negb]. fold n.
+      destruct (Z.ltb_spec (Z.of_nat i) (Z.of_nat n)) as [_|Hge]; [|lia]. cbn [fst snd].
+      unfold Ri, spec_cur. cbn [si_kvs si_cur mi_kvs mi_cur mi_pos]. fold n.
       destruct (Nat.ltb_spec (S i) n) as [Hlt|Hge].
       * destruct (nth_lt kvs (S i) Hlt) as [x Hx].
-        destruct (mem_at kvs (Z.of_nat i + 1)%Z (S i) x) as [-> ->]; auto; [lia|].
+        destruct (mem_at kvs (Z.of_nat i + 1)%Z true (S i) x) as [-> ->]; auto; [lia|].
         rewrite Hx. cbn [cur_rel]. repeat split; auto. lia.
-      * destruct (mem_out kvs (Z.of_nat i + 1)%Z) as [-> ->]; [fold n; lia|].
+      * destruct (mem_out kvs (Z.of_nat i + 1)%Z true) as [-> ->]; [fold n; lia|].
         cbn [cur_rel]. repeat split; auto. lia.
-    + contradiction.
+    + destruct Hc as [-> ->]. cbn [negb]. fold n.
+      destruct (Z.ltb_spec (Z.of_nat n) (Z.of_nat n)) as [Hlt|_]; [lia|]. cbn [fst snd].
+      unfold Ri, spec_cur. cbn [si_kvs si_cur mi_kvs mi_cur mi_pos cur_rel]. fold n.
+      destruct (mem_out kvs (Z.of_nat n) true) as [-> ->]; [fold n; lia|]. auto.
   - (* Prev *)
     destruct c as [| |i|]; cbn [cur_rel] in Hc.
-    + subst z. cbn [fst snd Z.eqb]. exact Hfirst.
-    + contradiction.
-    + destruct Hc as [Hi ->]. destruct i as [|i].
-      * cbn [Z.of_nat Z.eqb fst snd]. unfold Ri, spec_cur. cbn [si_kvs si_cur mi_kvs mi_cur cur_rel].
-        destruct (mem_out kvs (-1)%Z) as [_ ->]; [lia|]. auto.
-      * destruct (Z.eqb_spec (Z.of_nat (S i)) 0) as [E|_]; [lia|].
-        destruct (Z.eqb_spec (Z.of_nat (S i)) (-1)) as [E|_]; [lia|].
-        cbn [fst snd]. unfold Ri, spec_cur. cbn [si_kvs si_cur mi_kvs mi_cur cur_rel]. fold n.
+    + destruct Hc as [-> ->]. cbn [negb fst snd]. exact Hfirst.
+    + destruct Hc as [-> ->]. cbn [negb Z.leb Z.compare fst snd].
+      unfold Ri, spec_cur. cbn [si_kvs si_cur mi_kvs mi_cur mi_pos cur_rel].
+      destruct (mem_out kvs (-1)%Z true) as [_ ->]; [lia|]. auto.
+    + destruct Hc as (Hi & -> & ->). cbn [negb]. destruct i as [|i].
+      * cbn [Z.of_nat Z.leb Z.compare fst snd]. unfold Ri, spec_cur. cbn [si_kvs si_cur mi_kvs mi_cur mi_pos cur_rel].
+        destruct (mem_out kvs (-1)%Z true) as [_ ->]; [lia|]. auto.
+      * destruct (Z.leb_spec (Z.of_nat (S i)) 0) as [E|_]; [lia|].
+        cbn [fst snd]. unfold Ri, spec_cur. cbn [si_kvs si_cur mi_kvs mi_cur mi_pos cur_rel]. fold n.
         destruct (nth_lt kvs i ltac:(lia)) as [x Hx].
-        destruct (mem_at kvs (Z.of_nat (S i) - 1)%Z i x) as [_ ->]; auto; [lia|].
+        destruct (mem_at kvs (Z.of_nat (S i) - 1)%Z true i x) as [_ ->]; auto; [lia|].
         rewrite Hx. repeat split; auto; lia.
-    + subst z. fold n. destruct n as [|n'] eqn:En.
-      * cbn [Z.of_nat Z.eqb fst snd]. unfold Ri, spec_cur. cbn [si_kvs si_cur mi_kvs mi_cur cur_rel].
-        destruct (mem_out kvs (-1)%Z) as [_ ->]; [lia|]. auto.
-      * destruct (Z.eqb_spec (Z.of_nat (S n')) 0) as [E|_]; [lia|].
-        destruct (Z.eqb_spec (Z.of_nat (S n')) (-1)) as [E|_]; [lia|].
-        cbn [fst snd]. unfold Ri, spec_cur. cbn [si_kvs si_cur mi_kvs mi_cur cur_rel]. fold n. rewrite En.
+    + destruct Hc as [-> ->]. cbn [negb]. fold n. destruct n as [|n'] eqn:En.
+      * cbn [Z.of_nat Z.leb Z.compare fst snd]. unfold Ri, spec_cur. cbn [si_kvs si_cur mi_kvs mi_cur mi_pos cur_rel].
+        destruct (mem_out kvs (-1)%Z true) as [_ ->]; [lia|]. auto.
+      * destruct (Z.leb_spec (Z.of_nat (S n')) 0) as [E|_]; [lia|].
+        cbn [fst snd]. unfold Ri, spec_cur. cbn [si_kvs si_cur mi_kvs mi_cur mi_pos cur_rel]. fold n. rewrite En.
         destruct (nth_lt kvs n' ltac:(lia)) as [x Hx].
-        destruct (mem_at kvs (Z.of_nat (S n') - 1)%Z n' x) as [_ ->]; auto; [lia|].
+        destruct (mem_at kvs (Z.of_nat (S n') - 1)%Z true n' x) as [_ ->]; auto; [lia|].
         rewrite Hx. repeat split; auto; lia.
   - (* Seek *)
     destruct (seek_idx kvs k 0) as [j|] eqn:E; cbn [fst snd]; unfold Ri, spec_cur;
-      cbn [si_kvs si_cur mi_kvs mi_cur cur_rel]; fold n.
+      cbn [si_kvs si_cur mi_kvs mi_cur mi_pos cur_rel]; fold n.
     + apply seek_idx_bound in E. fold n in E. destruct (nth_lt kvs j ltac:(lia)) as [x Hx].
-      destruct (mem_at kvs (Z.of_nat j) j x) as [_ ->]; auto.
+      destruct (mem_at kvs (Z.of_nat j) true j x) as [_ ->]; auto.
       rewrite Hx. repeat split; auto; lia.
-    + destruct (mem_out kvs (Z.of_nat n)) as [_ ->]; [fold n; lia|]. auto.
+    + destruct (mem_out kvs (Z.of_nat n) true) as [_ ->]; [fold n; lia|]. auto.
 Qed.
 
 (* ---------- one step of the simulation ---------- *)
@@ -630,7 +640,6 @@ Proof.
     destruct (lookup (s_iters st) h) as [si|]; [|discriminate].
     destruct (lookup (m_iters mt) h) as [mi|]; [|contradiction].
     destruct (move_sim si mi m Hl) as (H1 & H2 & H3).
-    { destruct m; auto; destruct (si_cur si); auto; discriminate. }
     cbv zeta in H1, H2, H3. destruct (mem_move mi m) as [mi' r]. cbn [fst snd] in *. subst r.
     split.
     + constructor; cbn; auto. apply Forall2_set_nth; cbn; auto.
